@@ -204,6 +204,7 @@ var scalarSpelling = map[string]string{
 	"float32": "float:FLOAT32", "float64": "float:FLOAT64",
 	"bytes": "bytes", "timestamp": "timestamp", "date": "date", "decimal": "decimal",
 	"key": "key", "key:id62": "key:id62", "key:uuid": "key:uuid", "any": "any",
+	"msgmeta": "object:j5.messaging.v1.RequestMetadata", // a published type, needs `import j5.messaging.v1`
 }
 
 func refText(t *schemaType) string {
@@ -418,10 +419,16 @@ func astToJ5s(b schemaBundle) map[string]string {
 			if len(f.Imports) > 0 {
 				p.line("")
 			}
+			body := &j5sPrinter{}
 			for di := range f.Decls {
-				p.decl(&f.Decls[di])
+				body.decl(&f.Decls[di])
+				body.line("")
+			}
+			if strings.Contains(body.sb.String(), "j5.messaging.v1.") {
+				p.line("import j5.messaging.v1")
 				p.line("")
 			}
+			p.sb.WriteString(body.sb.String())
 			out[j5sFileName(pkg.Name, f.Name)] = p.sb.String()
 		}
 	}
